@@ -121,6 +121,13 @@ class BoundMethod:
         return 'Bound<%r of %r>' % (self.func, self.selfv)
 
 
+class SuperV:
+    """super(cls, obj): attribute lookup continues in obj's class hierarchy after `cls`"""
+    def __init__(self, cls, obj):
+        self.cls = cls
+        self.obj = obj
+
+
 class Builtin:
     """a modelled library function: impl(interp, args, kwargs) -> value"""
     def __init__(self, name, impl):
